@@ -7,6 +7,7 @@ import (
 	"fmt"
 	"os"
 	"path/filepath"
+	"sort"
 	"strings"
 	"testing"
 	"unicode"
@@ -98,6 +99,11 @@ func checkGoAny(c GoAnyCase) pbt.Verdict {
 type GoProject struct {
 	Module string   `json:"module"` // "" = no go.mod
 	Files  []GoFile `json:"files"`
+	// Extra: files that declare nothing (a doc.go with the package clause only)
+	Extra map[string]string `json:"extra,omitempty"`
+	// CliForm: how the plugin is given the project directory (cwd is always the project):
+	// 0 "-p .", 1 "--path .", 2 no option (the default), 3 "-p <absolute directory>", 4 "--path=./"
+	CliForm int `json:"cli_form,omitempty"`
 }
 
 func genGoProject(t *rapid.T) GoProject {
@@ -108,7 +114,21 @@ func genGoProject(t *rapid.T) GoProject {
 	n := rapid.IntRange(1, 3).Draw(t, "nFiles")
 	for i := 0; i < n; i++ {
 		prefix := string(rune('A' + i))
-		p.Files = append(p.Files, renderGo(drawGoSpec(t), prefix, strings.ToLower(prefix)+"_file.go"))
+		spec := drawGoSpec(t)
+		if spec.SharedName {
+			spec.Dir = i // one directory per file that declares the shared name: a package declares a name once
+		}
+		name := strings.ToLower(prefix) + "_file.go"
+		if rapid.IntRange(0, 5).Draw(t, "testFileName") == 5 {
+			name = strings.ToLower(prefix) + "_file_test.go"
+		}
+		p.Files = append(p.Files, renderGo(spec, prefix, name))
+	}
+	if rapid.IntRange(0, 3).Draw(t, "docFile") == 3 {
+		p.Extra = map[string]string{"pkg/stack/doc.go": "// Package stack is documented here.\npackage stack\n"}
+	}
+	if rapid.IntRange(0, 1).Draw(t, "cliOptionDrawn") == 1 {
+		p.CliForm = rapid.IntRange(0, 4).Draw(t, "cliForm")
 	}
 	return p
 }
@@ -120,6 +140,9 @@ func (p GoProject) tree() map[string]string {
 	}
 	for _, f := range p.Files {
 		files[f.Path] = f.Code
+	}
+	for path, code := range p.Extra {
+		files[path] = code
 	}
 	return files
 }
@@ -187,6 +210,24 @@ func projectVerdict(p GoProject) pbt.Verdict {
 	if p.Module != "" {
 		v.Classes = append(v.Classes, "go.mod")
 	}
+	if len(p.Extra) > 0 {
+		v.Classes = append(v.Classes, "file_with_package_clause_only")
+	}
+	declaredIn := map[string]int{}
+	for _, f := range p.Files {
+		if strings.HasSuffix(f.Path, "_test.go") {
+			v.Classes = append(v.Classes, "file_named_*_test.go")
+		}
+		for _, s := range f.Structs {
+			declaredIn[s.Name]++
+		}
+	}
+	for _, name := range sortedKeys(declaredIn) {
+		if declaredIn[name] > 1 {
+			v.Classes = append(v.Classes, "type_name_declared_in_several_files")
+			break
+		}
+	}
 	return v
 }
 
@@ -211,8 +252,9 @@ func checkGoProject(p GoProject) pbt.Verdict {
 }
 
 // runPlugin runs a plugin binary in dir and decodes the report it writes.
-func runPlugin(binary, report, dir string) ([]core_domain.CodeDataStruct, string) {
-	res, err := cli.Run(binary, dir, nil, "analysis", "-p", ".")
+func runPlugin(binary, report, dir string, form int) ([]core_domain.CodeDataStruct, string) {
+	args := [][]string{{"analysis", "-p", "."}, {"analysis", "--path", "."}, {"analysis"}, {"analysis", "-p", dir}, {"analysis", "--path=./"}}[form%5]
+	res, err := cli.Run(binary, dir, nil, args...)
 	if err != nil {
 		panic("c20: cannot run " + binary + ": " + err.Error())
 	}
@@ -244,18 +286,22 @@ func checkGoCLI(p GoProject) pbt.Verdict {
 	dir := cli.Scratch("c20gocli")
 	defer os.RemoveAll(dir)
 	cli.WriteTree(dir, p.tree())
-	ds, why := runPlugin("coca_go", "godeps.json", dir)
+	ds, why := runPlugin("coca_go", "godeps.json", dir, p.CliForm)
 	if why != "" {
 		return pbt.Fail("analysis/golang: %s\n%s", why, p.render())
 	}
 	if msg := judgeGoDs(ds, p); msg != "" {
 		return pbt.Fail("analysis/golang, godeps.json: %s\n%s", msg, p.render())
 	}
-	return projectVerdict(p)
+	v := projectVerdict(p)
+	v.Classes = append(v.Classes, fmt.Sprintf("cli_form=%d", p.CliForm%5))
+	return v
 }
 
 type PyProject struct {
-	Modules []PyModule `json:"modules"`
+	Modules []PyModule `json:"modules"` // in the order in which the directory walk meets them
+	// CliForm: as for GoProject
+	CliForm int `json:"cli_form,omitempty"`
 }
 
 func genPyProject(t *rapid.T) PyProject {
@@ -264,7 +310,28 @@ func genPyProject(t *rapid.T) PyProject {
 	for i := 0; i < n; i++ {
 		prefix := string(rune('A' + i))
 		path := []string{"app.py", "pkg/models.py", "pkg/sub/views.py"}[i]
+		if rapid.IntRange(0, 5).Draw(t, "otherModuleName") == 5 {
+			path = []string{"setup.py", "pkg/__init__.py", "tests/test_views.py"}[i]
+		}
 		p.Modules = append(p.Modules, renderPy(drawPySpec(t), prefix, path))
+	}
+	// package markers: modules that declare nothing
+	if rapid.IntRange(0, 2).Draw(t, "packageMarkers") == 2 {
+		form := rapid.IntRange(0, 2).Draw(t, "packageMarkerForm")
+		for _, path := range []string{"pkg/__init__.py", "pkg/sub/__init__.py"} {
+			taken := false
+			for _, m := range p.Modules {
+				taken = taken || m.Path == path
+			}
+			if !taken {
+				p.Modules = append(p.Modules, PyModule{Path: path, Code: []string{"", "# package marker\n", "\"\"\"The package.\"\"\"\n\n__all__ = []\n"}[form], Features: []string{"module_without_definitions"}})
+			}
+		}
+	}
+	// the order of the directory walk: lexical, and none of the names makes that differ from comparing whole paths
+	sort.SliceStable(p.Modules, func(i, j int) bool { return p.Modules[i].Path < p.Modules[j].Path })
+	if rapid.IntRange(0, 1).Draw(t, "cliOptionDrawn") == 1 {
+		p.CliForm = rapid.IntRange(0, 4).Draw(t, "cliForm")
 	}
 	return p
 }
@@ -355,6 +422,21 @@ func pyProjectVerdict(p PyProject) pbt.Verdict {
 	v := pbt.Verdict{}
 	v.Classes, v.NonTrivial = pyClasses(all)
 	v.Classes = append(v.Classes, fmt.Sprintf("modules=%d", len(p.Modules)))
+	declaredIn := map[string]int{}
+	for _, m := range p.Modules {
+		for _, c := range m.Classes {
+			declaredIn[c.Name]++
+		}
+		if strings.HasSuffix(m.Path, "__init__.py") || strings.HasPrefix(m.Path, "tests/") || m.Path == "setup.py" {
+			v.Classes = append(v.Classes, "module_named_"+filepath.Base(m.Path))
+		}
+	}
+	for _, name := range sortedKeys(declaredIn) {
+		if declaredIn[name] > 1 {
+			v.Classes = append(v.Classes, "class_name_declared_in_several_modules")
+			break
+		}
+	}
 	return v
 }
 
@@ -388,14 +470,16 @@ func checkPyCLI(p PyProject) pbt.Verdict {
 	dir := cli.Scratch("c20pycli")
 	defer os.RemoveAll(dir)
 	cli.WriteTree(dir, p.tree())
-	ds, why := runPlugin("coca_py", "pydeps.json", dir)
+	ds, why := runPlugin("coca_py", "pydeps.json", dir, p.CliForm)
 	if why != "" {
 		return pbt.Fail("analysis/python: %s\n%s", why, p.render())
 	}
 	if msg := judgePyDs(ds, p); msg != "" {
 		return pbt.Fail("analysis/python, pydeps.json: %s\n%s", msg, p.render())
 	}
-	return pyProjectVerdict(p)
+	v := pyProjectVerdict(p)
+	v.Classes = append(v.Classes, fmt.Sprintf("cli_form=%d", p.CliForm%5))
+	return v
 }
 
 // ---------------------------------------------------------------------------------------
